@@ -95,7 +95,7 @@ def gc_history(sp, spelling="abs", L=3, first=None, ops=None):
         if "link" in cfg:
             e.fos.mkdir_durable(cfg["link"][1])
             e.fos.put_symlink(cfg["link"][0], cfg["link"][1])
-        ops = ops or ["append", "delete", "replace", "expire", "delsnap", "gc", "open_txn"]
+        ops = ops or ["append", "delete", "replace", "expire", "delsnap", "gc", "open_txn", "contended_commit"]
         h = H.History(sp, e, ops, checks=[H.check_state, H.check_gc])
         # a fixed prefix so every history has something to collect around
         h.ops = ["append"]
@@ -131,7 +131,7 @@ def obligations(tier):
     else:
         L = 4
         spell = list(SPELLINGS)
-        firsts = ["append", "delete", "replace", "expire", "delsnap", "gc", "open_txn"]
+        firsts = ["append", "delete", "replace", "expire", "delsnap", "gc", "open_txn", "contended_commit"]
     for s in spell:
         for f in firsts:
             obs.append(Ob(f"b.history.{s}{'.' + f if f else ''}.L{L}", "vf.props.c05:gc_history",
